@@ -35,6 +35,59 @@ PROPS = {
         "trusted": CODEC_TRUST,
         "assumptions": [],
     },
+    "C11": {
+        "bins": ["codec"], "profiles": ["debug", "release"],
+        "rule": "every byte string up to length 3 for every decoder (sampled by stride on the last length in the "
+                "quick tier), hand-built QPACK field sections with every representation, continuation runs of every "
+                "length 0..13 for every prefix width (the integer-overflow family), single-byte / truncation / "
+                "insertion mutations of valid encodings, settings / capsule / datagram / Huffman payloads; run in a "
+                "debug build (overflow checks, debug_assert) and a release build; non-trivial = distinct non-empty input",
+        "extracted_keys": ["FRAME_MAX_PARSE_PAYLOAD", "QSTREAM_MAX", "VARINT_MAX", "CAPSULE_MAX_REASON_LEN", "HUFFMAN_CRATE"],
+        "trusted": CODEC_TRUST + ["httlib-huffman (modelled concretely from its regenerated tables)"],
+        "assumptions": ["allocation bound of the QPACK decoder is argued (output <= 77 bytes per input byte via static "
+                        "rows, 8/5 via Huffman) but not yet a theorem"],
+    },
+    "C12": {
+        "bins": ["codec"],
+        "rule": "all histories up to depth 3 (quick) / 4 (thorough) over {DATA, HEADERS, SETTINGS, WT-signal valid / "
+                "invalid id, GREASE, oversize, unknown} plus truncation of the last element at end of stream, on each "
+                "of the four typestates, one-shot and async readers, oracle = independent transcription of the RFC "
+                "rules (Spec.ruleVerdict); settings payloads; non-trivial = distinct history of length >= 2",
+        "extracted_keys": ["ERROR_CODES"],
+        "trusted": CODEC_TRUST,
+        "assumptions": ["driver half (codes seen on the wire by a raw peer) is in the e2e correspondence when present"],
+    },
+    "C13": {
+        "bins": ["codec"],
+        "rule": "valid exchanges per typestate with 1-3 unknown / GREASE frames (every varint length of the type, payloads "
+                "empty / frame-looking / `01 00` / 4095..5000 bytes) inserted at random frame boundaries: metamorphic "
+                "equality of the known-frame sequences (sync and async); settings maps with unknown / GREASE ids "
+                "inserted; capsule payloads; unknown and GREASE stream types; non-trivial = distinct line",
+        "extracted_keys": ["GREASE_BASE", "GREASE_STEP", "FRAME_MAX_PARSE_PAYLOAD"],
+        "trusted": CODEC_TRUST,
+        "assumptions": [],
+    },
+    "C18": {
+        "bins": ["codec"],
+        "rule": "all 243 present/wrong/missing combinations of the five pseudo-headers with random extra fields, "
+                "through SessionRequest::try_from and through the wire form; status strings for every integer "
+                "0..65540 (thorough) / stride 7 + boundaries (quick) with signs, spaces, zeros, non-ASCII digits; all "
+                "integer constructors 0..700 and width boundaries; reserved and near-reserved names x URLs",
+        "extracted_keys": ["STATUS_MIN", "STATUS_MAX", "RESERVED_HEADERS", "REQUEST_TRYFROM_CHECKS"],
+        "trusted": CODEC_TRUST + ["url crate (authority/path/query of a parsed URL are inputs of the model)",
+                                  "u16::from_str grammar (modelled, differential-tested)"],
+        "assumptions": ["a leading '+' or leading zeros accepted by u16::from_str are not violations (value still in range)"],
+    },
+    "C04": {
+        "bins": ["codec"],
+        "rule": "close capsules over code boundaries x reason lengths 0..1025 (ASCII, multi-byte, invalid UTF-8), "
+                "too-short / over-long / truncated / unknown-type capsules, trailing bytes; oracle = independent "
+                "RFC 9297 / WebTransport close-capsule parser; non-trivial = distinct payload",
+        "extracted_keys": ["CAPSULE_CLOSE_WEBTRANSPORT_SESSION", "CAPSULE_MAX_REASON_LEN", "CAPSULE_CODE_LEN"],
+        "trusted": CODEC_TRUST,
+        "assumptions": ["a capsule split over two DATA frames is outside the property's quantifier (treated as unknown)",
+                        "live half (every waiter sees the stored cause) is in the e2e correspondence when present"],
+    },
 }
 
 LEVEL_TEXT = {
@@ -48,6 +101,23 @@ LEVEL_TEXT = {
     "C17": "Lean 4 theorems for all 2^62 ids: acceptance iff client-initiated bidirectional, mutual inverses and "
            "ranges (unsafe/debug_assert preconditions), QUIC classification, and the accept-side session filter "
            "never delivering foreign items; tied by regenerated constants and correspondence",
+    "C11": "Lean 4 theorems: loops terminate because every turn consumes input (termination proofs + progress "
+           "lemmas), returned values satisfy their invariants (varints < 2^62, session ids = 0 mod 4, quarter ids <= "
+           "2^60-1, frame payloads <= 4096), QPACK prefix integers are exact w.r.t. the unbounded RFC value or an error "
+           "(never a trap, never a wrapped value); tied by exhaustive-short + adversarial differential runs in debug "
+           "and release builds",
+    "C12": "Lean 4 theorems: for every payload / id / following bytes each typestate and each worker task reacts to each "
+           "alphabet element with exactly the prescribed registered code (frame_reaction, control / request stream rules), "
+           "lifted to histories; tied by exhaustive bounded histories on the real typestates against an independent oracle",
+    "C13": "Lean 4 theorems: an unknown or oversize-GREASE element of any type/length/content is consumed whole and "
+           "inserting any number of them at frame boundaries changes neither frames, errors nor state on every typestate, "
+           "the session stream, the control stream, settings and uni streams; tied by metamorphic differential runs",
+    "C18": "Lean 4 theorems: admission iff extended CONNECT/webtransport/https with authority and path, refusal is "
+           "stream-local, no constructor yields a status outside 100..599, acceptance iff 2xx, reserved names can never be "
+           "overridden, authority/path exact; tied by exhaustive pseudo-header combinations and status strings",
+    "C04": "Lean 4 theorems: every 32-bit code and UTF-8 reason <= 1024 is reported exactly (also behind ignorable "
+           "elements), clean FIN = (0, empty), abrupt end / malformed capsule = protocol error never app close, QUIC close "
+           "codes and reasons are the identity through every mapping arm; tied by capsule differential runs",
 }
 
 LEVEL_NOTE = {
@@ -58,6 +128,12 @@ LEVEL_NOTE = {
            "the tie is differential (all prefixes, exhaustive chunkings of short inputs).",
     "C17": "Trusted as C14. The driver half (foreign streams refused with the registered code on a live connection) is "
            "exercised by the e2e correspondence when present in the evidence.",
+    "C11": "Trusted as C14. Machine arithmetic is modelled for the QPACK integer decoder (the only overflow-prone code); "
+           "memory safety of the unsafe constructors is not proved, their preconditions are.",
+    "C12": "Trusted as C14. Spec/H3.lean is a hand transcription of the RFC rules (the oracle).",
+    "C13": "Trusted as C14.",
+    "C18": "Trusted as C14; url crate and u16::from_str modelled.",
+    "C04": "Trusted as C14; quinn's close_reason() is an input of the model.",
 }
 
 
